@@ -374,6 +374,8 @@ def run(tier):
         base = {"kind": "table-gap", "theorem": "Inst_C10.%s_progs_ok" % gen10.short(pkg), "package": pkg, "func": p["func"], "field": s["loc"],
                 "role": role, "where": s["pos"], "defect": d, "translated_section": s}
         w = witness_search(tabs, pkg, p, s, role) if s["kind"] == "rmw" and ok_inst is not None else None
+        if w:
+            base["model_witness"] = w     # the model's own refutation: a two-goroutine schedule that loses the update
         found = None
         if w and pkg == "pkg/metrics" and p["func"] == "RecordTokenization" and role in ("RMax", "RMin"):
             # the model's witness schedule as a real two-goroutine attempt (barrier-released, many rounds)
